@@ -18,9 +18,9 @@ WFIn(l) == LexWF(l)
 
 Has(r, f) == f \in DOMAIN r
 
-Post(l, r) == /\ CanonOf(Lex(r.out)) = CanonOf(l)
-              /\ r.same
-              /\ (Has(r, "status") => r.status = 200)
+Post(ci, r) == /\ CanonOf(Lex(r.out)) = [ok |-> TRUE, toks |-> ci.toks]
+               /\ r.same
+               /\ (Has(r, "status") => r.status = 200)
 
 (* abstract identity of a failing case: how the canonical token sequences     *)
 (* differ at the first difference, and what is special about the input        *)
@@ -28,9 +28,9 @@ RECURSIVE FirstDiff(_, _, _)
 FirstDiff(a, b, k) == IF k > Len(a) \/ k > Len(b) THEN 0
                       ELSE IF a[k] # b[k] THEN k ELSE FirstDiff(a, b, k + 1)
 
-Kind(l, r) ==
+Kind(ci, r) ==
   LET lo == Lex(r.out)
-      a  == Canon(l.toks)
+      a  == ci.toks
       b  == Canon(lo.toks)
       k  == FirstDiff(a, b, 1)
   IN IF Has(r, "status") /\ r.status # 200 THEN "not-served"
@@ -41,15 +41,14 @@ Kind(l, r) ==
      ELSE IF b[k].k = "w" THEN "space-introduced"
      ELSE "token-changed-" \o a[k].k \o "-to-" \o b[k].k
 
-Feature(l) == IF l.glue THEN "comment-between-adjacent-tokens"
-              ELSE IF l.ucm THEN "comment-opener-inside-url"
-              ELSE LET sk == SigKinds(l.toks) IN
-                IF "sel" \in sk /\ "op" \in sk THEN "descendant-and-operator-space"
-                ELSE IF "sel" \in sk THEN "descendant-space"
-                ELSE IF "op" \in sk THEN "operator-space"
-                ELSE "other-input"
+Feature(l, ci) == IF l.glue THEN "comment-between-adjacent-tokens"
+                  ELSE IF l.ucm THEN "comment-opener-inside-url"
+                  ELSE IF "sel" \in ci.sig /\ "op" \in ci.sig THEN "descendant-and-operator-space"
+                  ELSE IF "sel" \in ci.sig THEN "descendant-space"
+                  ELSE IF "op" \in ci.sig THEN "operator-space"
+                  ELSE "other-input"
 
-Key(l, r) == "css/" \o Kind(l, r) \o "/" \o Feature(l)
+Key(l, ci, r) == "css/" \o Kind(ci, r) \o "/" \o Feature(l, ci)
 
 Features == {"comment-between-adjacent-tokens", "comment-opener-inside-url", "descendant-and-operator-space",
              "descendant-space", "operator-space", "other-input"}
@@ -57,13 +56,14 @@ Features == {"comment-between-adjacent-tokens", "comment-opener-inside-url", "de
 TInit == i = 1 /\ bad = {} /\ skipped = 0 /\ fc = [f \in Features |-> 0]
 TNext == /\ i <= N
          /\ i' = i + 1
-         /\ LET r == Log[i]
-                l == Lex(r.in)
+         /\ LET r  == Log[i]
+                l  == Lex(r.in)
+                ci == CanonInfo(l)
             IN IF ~WFIn(l) THEN skipped' = skipped + 1 /\ bad' = bad /\ fc' = fc
                ELSE /\ skipped' = skipped
-                    /\ fc' = [fc EXCEPT ![Feature(l)] = @ + 1]
-                    /\ bad' = IF Post(l, r) THEN bad
-                              ELSE bad \cup {[idx |-> i, key |-> Key(l, r)]}
+                    /\ fc' = [fc EXCEPT ![Feature(l, ci)] = @ + 1]
+                    /\ bad' = IF Post(ci, r) THEN bad
+                              ELSE bad \cup {[idx |-> i, key |-> Key(l, ci, r)]}
 TSpec == TInit /\ [][TNext]_<<i, bad, skipped, fc>>
 
 Report == i <= N \/ PrintT(ToJson([n |-> N, skipped |-> skipped, bad |-> bad, feat |-> fc]))
